@@ -1711,6 +1711,20 @@ func (ex *Exec) assignedRoots(n ast.Node) map[types.Object]bool {
 					args = append(args, sel.X)
 				}
 			}
+			// a method with a pointer receiver called on an addressable struct variable (implicit &x) may modify it
+			if sel, ok := s.Fun.(*ast.SelectorExpr); ok {
+				if f := ex.calleeOf(s); f != nil {
+					if sig, ok := f.Type().(*types.Signature); ok && sig.Recv() != nil {
+						if _, isPtr := sig.Recv().Type().Underlying().(*types.Pointer); isPtr {
+							if o := rootOf(sel.X); o != nil {
+								if v, isVar := o.(*types.Var); isVar && v != ex.apiObj {
+									roots[o] = true
+								}
+							}
+						}
+					}
+				}
+			}
 			for _, a := range args {
 				t := ex.info.TypeOf(a)
 				if t == nil {
